@@ -246,6 +246,10 @@ func doCall(cs *expCase, cl call, cache spec.ResolutionCache, budget int) (r cal
 			out, err = spec.ResolvePathItemWithBase(root, mkRef(cl), opts)
 		case "ResolveItemsWithBase":
 			out, err = spec.ResolveItemsWithBase(root, mkRef(cl), opts)
+		case "ResolveItems":
+			out, err = spec.ResolveItems(root, mkRef(cl), opts)
+		case "ResolvePathItem":
+			out, err = spec.ResolvePathItem(root, mkRef(cl), opts)
 		default:
 			panic("unknown entry point " + cl.Fn)
 		}
